@@ -139,7 +139,9 @@ CHECKS = {
         text="Theorems (Props/C05.v): for any carrier the reported lambda is one of 10**srange (or the sentinel's 0), fewer than five "
              "valid cells pass through, and the result - robust or not - is independent of the placeholder that marks missing cells; over "
              "the reals, without robust weighting the reported lambda minimises the GCV score over the grid and the band is ws2dgu at that "
-             "lambda. The binary64 models of ws2dwcv / ws2dwcvp (robust iterations, MAD over weighted cells, zero-MAD guard, asymmetric "
+             "lambda; with robust weighting the weights of the final solve are non-negative and two valid cells keep a positive weight "
+             "whatever the data, so the band is the unique PLS curve for those weights at the reported lambda (C05_robust_never_"
+             "degenerates). The binary64 models of ws2dwcv / ws2dwcvp (robust iterations, MAD over weighted cells, noise floor, two-cell guard, asymmetric "
              "final fit) are compared bit-for-bit with the compiled kernels and through whitswcv with its defaults; degenerate residual "
              "families (constant, exactly linear, flat with spikes) are generated on purpose and checked not to be zeroed.",
         ref="7 (C05)",
